@@ -50,6 +50,22 @@ def cases(rng, tier):
                    nontrivial=gen.size(t) >= 6)
     yield from deep_cases(rng, tier)
     yield from io_failure_cases(rng, tier)
+    # exceptions under the observer: every throw / try / re-throw / retry shape of the C10 stream (caught faults,
+    # cached failures evaluated again, failing values handed back by handlers, deep forcing)
+    import random as _random
+    from . import c10
+    pool = [c for c in c10.cases(_random.Random(rng.random()), 'quick')
+            if c.tag.split(':')[0] in ('caught', 'uncaught', 'deep-force', 'memoised-failure', 'rethrow', 'wrap-rethrow', 'retry-in-handler',
+                                       'retry-sequence', 'retry-in-list', 'retry-after-swallow', 'retry-uncaught', 'handler-untouched',
+                                       'handler-faulty-used', 'bind-handler-eval', 'bind-handler-exec')]
+    rng.shuffle(pool)
+    for c in pool[:(250 if tier == 'quick' else 2000)]:
+        yield Case(program=c.program, stdin=c.stdin, mode='events', tag='exc-' + c.tag.split(':')[0], monitor='c19_nested')
+    # a failing argument handed back by its own handler, with an outer try still waiting (cached error returned in tail position)
+    for body in ["(ㄷ ㄷㅂㅎㄴ ㄷㅈㅎㄴ)", "(ㄴ ㄱ ㄴㄴㅎㄷ)"]:
+        yield Case(program=f"{body} ((ㄱㅇㄱ (ㄱㅇㄴ ㅎ) ㅅㄷㅎㄷ) (ㅈ ㅎ) ㅅㄷㅎㄷ ㅎ) ㅎㄴ", mode='events', tag='exc-handed-back', monitor='c19_nested')
+        yield Case(program=f"{body} ((ㄱㅇㄱ (ㄱㅇㄴ ㅎ) ㅅㄷㅎㄷ) (ㄱㅇㄱ ㅎ) ㅅㄷㅎㄷ ㅎ) ㅎㄴ", mode='events', tag='exc-handed-back', monitor='c19_nested')
+        yield Case(program=f"{body} (ㄱㅇㄱ (ㄱㅇㄴ ㅎ) ㅅㄷㅎㄷ ㅎ) ㅎㄴ", mode='events', tag='exc-handed-back-uncaught', monitor='c19_nested')
 
 
 def io_failure_cases(rng, tier):
@@ -105,7 +121,7 @@ SPEC = {
     'rule': 'typed programs (60 %), ill-typed / throwing calls (20 %) and I/O bind programs (20 %) run with a passive '
             'recording DebuggerBase subclass: the stream must be a balanced bracket word with depth = nesting + 1, end at '
             'depth 0 for value and exception outcomes, equal the model machine\'s stream event by event, and result / '
-            'exception / stdout / consumed stdin must equal those of the run without observer; plus long tail loops (5 shapes × 50 … 6000 / 20000 iterations), non-tail recursion 300 … 1600 deep, the frame-limit abort and a throw from the bottom of a 2600-iteration loop (caught / uncaught), all under the observer; exceptions raised while an action is being performed (non-action continuation, throwing continuation, failing file open / operation, with / without handler, nested in binds). Non-trivial = ≥ 6 nodes',
+            'exception / stdout / consumed stdin must equal those of the run without observer; plus long tail loops (5 shapes × 50 … 6000 / 20000 iterations), non-tail recursion 300 … 1600 deep, the frame-limit abort and a throw from the bottom of a 2600-iteration loop (caught / uncaught), all under the observer; exceptions raised while an action is being performed (non-action continuation, throwing continuation, failing file open / operation, with / without handler, nested in binds); 250 / 2000 programs of the C10 exception stream (throw, try, re-throw, cached failures tried again, failing values handed back by handlers) under the observer. Non-trivial = ≥ 6 nodes',
     'trusted': [],
     'assumptions': ['the stack-limit abort is excluded from "depth back to zero" (the loop is left by a raised RuntimeError)'],
 }
